@@ -358,3 +358,16 @@ def teardown_socket_calls(prog):
         for c, cov in _risky_socket_calls(m.functions[q].node):
             out.append((q, c, cov))
     return out
+
+
+def iterates_loggers(func_node, loop: ast.AST) -> bool:
+    """the loop draws from self.logger_modules: directly, through list()/sorted()/a filter, or through a local built from it"""
+    from ..dataflow import source_closure
+
+    it = loop.iter
+    if "logger_modules" in norm(it):
+        return True
+    try:
+        return any("logger_modules" in s_ for s_ in source_closure(func_node, it))
+    except Exception:
+        return False
